@@ -119,6 +119,16 @@ CLAIMS = {
              "C10-F1. Correspondence: c mentioning universal+free / only free / only universal variables, outer conjunct, caching.",
         note=BASE_NOTE + "The outer-conjunct form and caching are covered by correspondence (cache: findings C05-F1, C05-F3).",
         tech="Lean 4 proof (induction on the condition; intersection invariant over the universal values) + differential correspondence"),
+    'C13': dict(
+        text="Transliteration of update_domain_and_kwargs_from_args / properties_to_expression_tree / symbolic_new: "
+             "c13_positional (i-th positional after the domain binds the i-th field), c13_build_equal (T(From(d), ...) constructs "
+             "exactly the tree of the explicit query: structural equality, hence same rows in the same order: c13_same_rows), "
+             "c13_type_filter (domain = members that are instances of T, each once). Correspondence: mixed-type domains over a "
+             "generated hierarchy, keyword/positional fields, constants (falsy), earlier variables, nested predicate-form terms; "
+             "rows vs oracle and constructed tree vs model.",
+        note=BASE_NOTE + "Nested predicate-form values (sub-queries as operands) are compared with the flattened explicit query "
+             "by correspondence only. Parameter order comes from inspect.signature (trusted).",
+        tech="Lean 4 proof (structural equality of constructed trees) + tree-shape and row correspondence"),
 }
 
 ALL = ['C%02d' % i for i in range(1, 21)]
